@@ -108,6 +108,45 @@ def neigh_self(seqs, k, mode="lev"):
     return out
 
 
+def neigh_self_k1_big(seqs):
+    """max_edits = 1 neighbour set for large collections, by wildcard / deletion hashing (independent of the
+    symmetric-delete index of the code under test in its bookkeeping; every candidate is confirmed with the DP)."""
+    out = collections.Counter()
+    by_string = collections.defaultdict(list)
+    for i, s in enumerate(seqs):
+        by_string[s].append(i)
+    def emit(i, j, d):
+        out[(i, j, d)] = 1
+        out[(j, i, d)] = 1
+    for s, idx in by_string.items():
+        for a in range(len(idx)):
+            for b in range(a + 1, len(idx)):
+                emit(idx[a], idx[b], 0)
+    wild = collections.defaultdict(set)
+    for s in by_string:
+        for p in range(len(s)):
+            wild[(s[:p], s[p + 1:])].add(s)
+    for group in wild.values():
+        if len(group) > 1:
+            g = sorted(group)
+            for a in range(len(g)):
+                for b in range(a + 1, len(g)):
+                    if lev(g[a], g[b]) == 1:
+                        for i in by_string[g[a]]:
+                            for j in by_string[g[b]]:
+                                emit(i, j, 1)
+    for s in by_string:
+        seen = set()
+        for p in range(len(s)):
+            v = s[:p] + s[p + 1:]
+            if v in by_string and v not in seen:
+                seen.add(v)
+                for i in by_string[s]:
+                    for j in by_string[v]:
+                        emit(i, j, 1)
+    return out
+
+
 def neigh_cross(queries, refs, k, mode="lev"):
     """Counter of (q, r, d) with d(queries[q], refs[r]) <= k."""
     out = collections.Counter()
@@ -336,6 +375,8 @@ def self_test():
         assert wlev(a, b, 2, 5, 3) == wlev(b, a, 5, 2, 3)
     assert wlev("", "ABC", 2, 5, 3) == 6 and wlev("ABC", "", 2, 5, 3) == 15
     assert wlev("AB", "AC", 1, 1, 7) == 2
+    pool = [u for u in univ] + ["ACCA", "ACCA", ""]
+    assert neigh_self_k1_big(pool) == neigh_self(pool, 1)
     assert hist([0, 1, 1, 2, 5, 6], [0, 1, 2, 5]) == [1, 2, 2]
     assert U2([2, 1, 1]) == Fraction(2, 12)
     assert components(4, [(0, 2), (2, 3)]) == [0, 1, 0, 0]
